@@ -77,7 +77,7 @@ theorem step_inv {cfg : Cfg} (hc : cfg.Sane) {w : World} (h : Inv cfg w) (op : O
   | dpub p => exact (step_dpub h p).1
   | csub s b hh => exact (step_csub hc h s b hh).1
   | dsub s => exact (step_dsub h s).1
-  | loan p l => exact (step_loan h p l).1
+  | loan p l => exact (step_loan hc.2.2.2.2.2 h p l).1
   | send p l tag => exact (step_send h p l tag).1
   | dloan p l => exact (step_dloan h p l).1
   | recv s => exact (step_recv h s).1
@@ -85,7 +85,7 @@ theorem step_inv {cfg : Cfg} (hc : cfg.Sane) {w : World} (h : Inv cfg w) (op : O
   | updP p => exact (step_updP h p).1
   | updS s => exact (step_updS h s).1
   | has s => exact (step_has h s).1
-  | probe p => exact (step_probe h p).1
+  | probe p => exact (step_probe hc.2.2.2.2.2 h p).1
 
 theorem inv_init (cfg : Cfg) : Inv cfg (World.init cfg) := by
   refine ⟨⟨rfl, by simp [World.init, Reg.init], by simp [World.init, Reg.init], ?_, ?_, ?_, ?_⟩, ?_, ?_, ?_, ?_⟩
@@ -114,7 +114,7 @@ theorem step_no_panic {cfg : Cfg} (hc : cfg.Sane) {w : World} (h : Inv cfg w) (h
   | dpub p => rw [(step_dpub h p).2]; exact hnp
   | csub s b hh => exact (step_csub hc h s b hh).2 hnp
   | dsub s => rw [(step_dsub h s).2]; exact hnp
-  | loan p l => exact (step_loan h p l).2.2.1 hnp
+  | loan p l => exact (step_loan hc.2.2.2.2.2 h p l).2.2.1 hnp
   | send p l tag => rw [(step_send h p l tag).2]; exact hnp
   | dloan p l => rw [(step_dloan h p l).2]; exact hnp
   | recv s => exact (step_recv h s).2 hnp (hd s)
@@ -122,6 +122,6 @@ theorem step_no_panic {cfg : Cfg} (hc : cfg.Sane) {w : World} (h : Inv cfg w) (h
   | updP p => exact (step_updP h p).2 hnp
   | updS s => exact (step_updS h s).2 hnp (hd s)
   | has s => exact (step_has h s).2 hnp (hd s)
-  | probe p => rw [(step_probe h p).2.1]; exact hnp
+  | probe p => rw [(step_probe hc.2.2.2.2.2 h p).2.1]; exact hnp
 
 end Iox2.PubSub.C08
